@@ -46,6 +46,7 @@ func createCron(node gen.Node) *cron {
 	now := time.Now()
 	next := now.Add(time.Minute).Truncate(time.Minute)
 	in := next.Sub(now)
+	c.next = next
 
 	c.timer = time.AfterFunc(in, func() {
 		if node.IsAlive() == false {
